@@ -44,6 +44,7 @@ type HarnessResult struct {
 	Unknowns     []*FinalQuery
 	Sats         []*FinalQuery
 	CrossChecked int
+	Batches      int
 }
 
 type Config struct {
@@ -58,9 +59,21 @@ type Config struct {
 	feasMs            int
 	cross             bool
 	workers           int
+	maxPaths          int
 }
 
 var harnessFileRe = regexp.MustCompile(`^//vp:target\s+(\S+)`)
+var harnessPropsRe = regexp.MustCompile(`(?m)^//vp:props\s+(.+)$`)
+
+func containsWord(s, w string) bool {
+	for _, f := range strings.Fields(s) {
+		if f == w {
+			return true
+		}
+	}
+	return false
+}
+
 var harnessNeedsRe = regexp.MustCompile(`(?m)^//vp:load\s+(.+)$`)
 
 func main() {
@@ -75,6 +88,7 @@ func main() {
 	flag.IntVar(&cfg.jobs, "j", 0, "harnesses explored concurrently (0 = auto)")
 	flag.IntVar(&cfg.workers, "w", 0, "exploration workers per harness (0 = auto)")
 	flag.BoolVar(&cfg.trace, "trace", false, "print stacks of dropped paths")
+	flag.IntVar(&cfg.maxPaths, "maxpaths", 200000, "path budget per harness")
 	flag.BoolVar(&cfg.keep, "keep", false, "keep all query files")
 	flag.IntVar(&cfg.capS, "cap", 0, "final query cap in seconds (default 60 quick / 300 thorough)")
 	flag.IntVar(&cfg.feasMs, "feas", 0, "feasibility cap in ms (default 300 quick / 2000 thorough)")
@@ -122,12 +136,16 @@ func readHarnessFiles(cfg *Config) (overlay map[string][]byte, pats []string, fi
 		if !strings.HasSuffix(n, ".go") {
 			continue
 		}
-		if !(strings.HasPrefix(n, pl+"_") || strings.HasPrefix(n, "all_")) {
-			continue
-		}
 		b, err := os.ReadFile(filepath.Join(dir, n))
 		if err != nil {
 			return nil, nil, nil, err
+		}
+		if !strings.HasPrefix(n, pl+"_") {
+			// shared helper files list the properties they serve: //vp:props C01 C02 ...
+			m := harnessPropsRe.FindSubmatch(b)
+			if m == nil || !containsWord(string(m[1]), cfg.prop) {
+				continue
+			}
 		}
 		m := harnessFileRe.FindSubmatch(b)
 		if m == nil {
@@ -254,6 +272,9 @@ func runProperty(cfg *Config) int {
 			results[i] = runHarness(cfg, prog, j.pkg, j.fn, vpModel, workRoot)
 			r := results[i]
 			fmt.Fprintf(os.Stderr, "[gosym] %-44s paths=%v queries=%d final=%d solver=%.1fs wall=%.1fs %s\n", r.Name, r.Paths, r.Queries, r.FinalQ, r.SolverS, r.WallS, r.Err)
+			for why, n := range r.Dropped {
+				fmt.Fprintf(os.Stderr, "[gosym]    dropped %d: %s\n", n, why)
+			}
 		}(i, j)
 	}
 	wg.Wait()
@@ -283,11 +304,15 @@ func runHarness(cfg *Config, prog *ssa.Program, pkg *ssa.Package, name string, v
 	dir := filepath.Join(workRoot, name)
 	os.MkdirAll(dir, 0o755)
 	pool := &FinalPool{capS: cfg.capS, cross: cfg.cross, dir: dir, keepAll: cfg.keep}
+	if cfg.tier == 0 {
+		pool.crossMax = 3 // quick tier: the second solver re-decides a sample per assertion label (every sat answer is always re-decided)
+	}
 	sh := &Shared{prog: prog, pool: pool, harness: name, tier: cfg.tier, seed: cfg.seed, trace: cfg.trace, vpModel: vpModel,
 		globals: map[*ssa.Global]Val{}, lazyMemo: map[string]StoreEntry{}, globalHeap: map[int]Val{}, strIntern: map[string]int{}, seen: map[string]bool{},
-		unwind: 24, sliceL: 2, maxSteps: 20000000, maxPaths: 200000, reachWanted: map[string]int{}, reachSat: map[string]bool{},
-		boundsUsed: map[string]int{}, optionsUsed: map[string]bool{}, notes: map[string]bool{}}
+		unwind: 24, sliceL: 2, maxSteps: 20000000, maxPaths: cfg.maxPaths, reachWanted: map[string]int{}, reachSat: map[string]bool{},
+		boundsUsed: map[string]int{}, optionsUsed: map[string]bool{}, notes: map[string]bool{}, stubs: map[string]bool{}}
 	sh.decls = append(sh.decls, prelude...)
+	sh.noRegion = os.Getenv("VP_NO_REGION") != ""
 	pool.onDone = func(q *FinalQuery) {
 		if q.Kind == "reach" && q.Result == "sat" {
 			sh.mu.Lock()
@@ -377,6 +402,9 @@ func runHarness(cfg *Config, prog *ssa.Program, pkg *ssa.Package, name string, v
 	for n := range e.notes {
 		res.Notes = append(res.Notes, n)
 	}
+	for n := range e.stubs {
+		res.Notes = append(res.Notes, "contract stub (any result of its type): "+n)
+	}
 	sort.Strings(res.Options)
 	sort.Strings(res.Notes)
 	res.Inputs = len(e.inputs)
@@ -392,6 +420,21 @@ func runHarness(cfg *Config, prog *ssa.Program, pkg *ssa.Package, name string, v
 			res.CrossChecked++
 		}
 		switch q.Kind {
+		case "batch":
+			res.Batches++
+			if q.Result == "unsat" {
+				for _, a := range q.Batch {
+					st := res.Asserts[a.Label]
+					if st == nil {
+						st = &AssertStat{Label: a.Label}
+						res.Asserts[a.Label] = st
+					}
+					st.Unsat++
+					if q.Dur.Seconds() > st.MaxDur {
+						st.MaxDur = q.Dur.Seconds()
+					}
+				}
+			}
 		case "assert":
 			st := res.Asserts[q.Label]
 			if st == nil {
@@ -447,6 +490,7 @@ func runHarness(cfg *Config, prog *ssa.Program, pkg *ssa.Package, name string, v
 		}
 	}
 	for _, q := range res.Sats {
+		q.Model = q.Values
 		q.Values = namedInputs(e, q.Values)
 	}
 	return
@@ -722,7 +766,7 @@ func saveCex(cfg *Config, cexDir string, r *HarnessResult, st *AssertStat) strin
 		}
 	}
 	m := map[string]interface{}{"property": cfg.prop, "harness": r.Name, "assertion": st.Label, "inputs": q.Values,
-		"solver": z3Main, "cross_check": q.Cross, "sat_instances": st.Sat, "choices": q.Choices,
+		"model_of_pre_state_symbols": q.Model, "solver": z3Main, "cross_check": q.Cross, "sat_instances": st.Sat, "choices": q.Choices,
 		"how_to_read": "inputs are the harness's zzvp.Any*() values in call order (index:kind:smt-name); query.smt2 is the self-contained SMT-LIB query (path condition + negated assertion) that z3 answered sat"}
 	b, _ := json.MarshalIndent(m, "", " ")
 	os.WriteFile(filepath.Join(d, "counterexample.json"), b, 0o644)
